@@ -392,9 +392,12 @@ fn run_values(ctx: &mut Ctx, tag: u64, n_hist: u64, n_other: u64, check: fn(&str
             for src in [k, v] {
                 let Ok(li) = src.parse::<LanguageIdentifier>() else { continue };
                 let mut mx = li.clone();
-                mx.maximize();
                 let mut mn = li.clone();
-                mn.minimize();
+                // a panic inside the likely-subtags code is C01's (and C06's) finding; here the value is skipped
+                if guard(|| { mx.maximize(); mn.minimize(); }).is_err() {
+                    ctx.count("setup: maximize/minimize panicked (value skipped)");
+                    continue;
+                }
                 for (route, x) in [("maximize(cldr key)", mx), ("minimize(cldr key)", mn)] {
                     mon::begin_case(src.as_bytes());
                     ctx.evals += 1;
